@@ -168,6 +168,86 @@ func c06randRun(env sched.Env) *sched.Report {
 			}
 		}
 	}
+	// sequences of picks: whatever a balancer remembers from earlier picks, every pick is made from the list it is
+	// given now. Two consecutive picks of one balancer from every ordered pair of lists over 3 hosts (the second
+	// list may lack the host picked first: it was removed, became unhealthy or belongs to the other tier), every
+	// connection-count assignment in {0,2}^3, every draw.
+	{
+		all := mkHosts(3)
+		idxOf := func(h *host.Host) int {
+			for i, x := range all {
+				if x == h {
+					return i
+				}
+			}
+			return -1
+		}
+		sub := func(mask int) []*host.Host {
+			var l []*host.Host
+			for i := 0; i < 3; i++ {
+				if mask&(1<<i) != 0 {
+					l = append(l, all[i])
+				}
+			}
+			return l
+		}
+		for _, pol := range []service.LoadBalancePolicy{service.LoadBalancePolicy_LEAST_CONNECTION, service.LoadBalancePolicy_RANDOM, service.LoadBalancePolicy_ROUND_ROBIN} {
+			for m1 := 1; m1 < 8; m1++ {
+				for m2 := 1; m2 < 8; m2++ {
+					for cm := 0; cm < 8; cm++ {
+						for d := 0; d < 3; d++ {
+							for i := 0; i < 3; i++ {
+								for all[i].ConnCount() > 0 {
+									all[i].DecConnCount()
+								}
+								if cm&(1<<i) != 0 {
+									all[i].IncConnCount()
+									all[i].IncConnCount()
+								}
+							}
+							dd, k := d, 0
+							randInt = func() int { k++; return dd + k }
+							rep.Execs++
+							sched.Progress(nil)
+							b := New(pol)
+							l1, l2 := sub(m1), sub(m2)
+							h1 := b.PickHost(l1)
+							h2 := b.PickHost(l2)
+							in2 := false
+							for _, x := range l2 {
+								in2 = in2 || x == h2
+							}
+							if !in2 {
+								fail("pick-outside-the-list-it-was-given / "+pol.String()+" / after an earlier pick from another list", fmt.Sprintf("first list %v -> host %d, second list %v -> host %d (connections mask %03b, draw %d)", l1, idxOf(h1), l2, idxOf(h2), cm, d))
+							}
+						}
+					}
+				}
+			}
+		}
+		// balancers are per service: the rotation of one round-robin balancer is not disturbed by the picks of another
+		for n := 2; n <= 3; n++ {
+			for other := 1; other <= 3; other++ {
+				rep.Execs++
+				sched.Progress(nil)
+				hsA, hsB := mkHosts(n), mkHosts(3)
+				a, b := New(service.LoadBalancePolicy_ROUND_ROBIN), New(service.LoadBalancePolicy_ROUND_ROBIN)
+				count := map[*host.Host]int{}
+				for i := 0; i < 2*n; i++ {
+					count[a.PickHost(hsA)]++
+					for j := 0; j < other; j++ {
+						b.PickHost(hsB)
+					}
+				}
+				for _, h := range hsA {
+					if count[h] != 2 {
+						fail("round-robin-rotation-disturbed / by another service's balancer", fmt.Sprintf("service A picks %d times from %d hosts while service B picks %d times in between: host %s was picked %d times", 2*n, n, other, h.Addr, count[h]))
+						break
+					}
+				}
+			}
+		}
+	}
 	rep.States = rep.Execs
 	rep.Distinct = rep.Execs
 	rep.CustomSamples = []interface{}{"least connection: conns=[2 0 1] draws=(0,1)"}
